@@ -593,7 +593,9 @@ def run_case(run, tap, stream, index, rng):
                     vd.grid_coordinates(reg, shape=(7, 9))
                     return vd.maxabs(east, north)
                 jobs.append(job)
-            for res, exc in _core.run_threads(jobs, rounds=int(4 if size > 100000 else 25)):
+            results = _core.run_threads(jobs, rounds=int(4 if size > 100000 else 25), yield_probability=0.25 if index % 2 == 0 else 0.0, seed=index)
+            run.count("yields_injected", getattr(_core.run_threads, "yields_injected", 0) - run.counters.get("yields_injected", 0))
+            for res, exc in results:
                 if isinstance(exc, TimeoutError):
                     run.note_inconclusive("threads: %r" % (exc,))
                 elif exc is not None:
